@@ -25,6 +25,7 @@ from .flow import DepEngine, FuncWalker, FuncResult, _State, root_name, MUTATING
 Locs = FrozenSet[str]
 NO: Locs = frozenset()
 FRESH = 'FRESH'
+DELEM = '<delem>'      # pseudo-field: objects stored as entries of a descriptor dict of the owner
 
 VIEW_FUNCS = {'asarray', 'asanyarray', 'squeeze', 'reshape', 'ravel', 'transpose', 'atleast_1d', 'atleast_2d',
               'atleast_3d', 'expand_dims', 'swapaxes', 'moveaxis', 'diagonal', 'real', 'broadcast_to', 'view',
@@ -533,6 +534,12 @@ class HeapWalker(FuncWalker):
             self.write(base, 'item', key, node)
             if val:
                 self.store_field(st, base, '*', val, strong=False)
+                if isinstance(target.value, ast.Attribute) and target.value.attr in DICT_FIELDS:
+                    # an entry of a descriptor dict of an object: recorded on the owning object(s) as well, so that the entry
+                    # survives the collapse of fresh sub-containers onto their owner (see summary())
+                    for owner in self.pt(target.value.value, st):
+                        self.store_field(st, frozenset({owner}), DELEM, val, strong=False)
+                    self.store_field(st, base, DELEM, val, strong=False)
         elif isinstance(target, ast.Starred):
             self._assign(target.value, val, None, st, node)
 
@@ -723,7 +730,8 @@ class HeapWalker(FuncWalker):
         for (l, fld), val in summ.stores.items():
             targets = self._subst([l], amap, site, st=None if is_ctor else st)
             v = self._subst(val, amap, site)
-            self.store_field(st, targets, fld, v, strong=is_ctor and len(targets) == 1)
+            # element / entry stores never remove the other elements: weak
+            self.store_field(st, targets, fld, v, strong=is_ctor and len(targets) == 1 and fld not in ('*', DELEM))
         for (l, kind, key) in summ.writes:
             targets = self._subst([l], amap, site, st=None if is_ctor else st)
             if is_ctor:
@@ -793,6 +801,11 @@ class HeapWalker(FuncWalker):
                 return frozenset({site})
             if nm in SHALLOW_COPY_FUNCS and (isinstance(fn, ast.Name) or ext in ('copy.copy',)):
                 inner = self.elems(arg0, st)
+                if nm == 'dict':
+                    # dict([(k, v), ...]) / dict(zip(ks, vs)): the entries are the members of the pairs; dict(k=v): the values
+                    inner = inner | self.elems(inner, st)
+                    for kw in e.keywords:
+                        inner = inner | self.pt(kw.value, st)
                 if inner:
                     st.heap[(site, '*')] = st.heap.get((site, '*'), NO) | inner
                 if nm == 'copy' and arg0:
@@ -810,6 +823,13 @@ class HeapWalker(FuncWalker):
             if nm == 'isinstance' or nm == 'len':
                 return NO
             # callable held in a variable / parameter (fitter[j](...), func(v1, v2), fun(x)): unknown effects
+            if isinstance(fn, ast.Name) and any(is_param_loc(l) and '.' not in l for l in st.pts.get(fn.id, NO)):
+                # a function supplied by the caller may hand back (a view of) what it was given
+                res = {site}
+                for a in e.args:
+                    if not isinstance(a, ast.Starred):
+                        res |= self.pt(a, st)
+                return frozenset(res)
             return frozenset({site}) if ext else NO
         # method call on an object
         recv = self.pt(fn.value, st) if isinstance(fn, ast.Attribute) else NO
@@ -870,6 +890,17 @@ class HeapWalker(FuncWalker):
                         ex.discard(None)
                         if ex:
                             s.ret_fields[fld] = s.ret_fields.get(fld, NO) | frozenset(ex)
+                # entries of the descriptor dicts of the returned object: through the dict allocation, or recorded on the owner
+                de = set(final_heap.get((l, DELEM), ()))
+                for fld in DICT_FIELDS:
+                    for x in final_heap.get((l, fld), ()):
+                        if x.startswith('A:') and x != l:
+                            de |= set(final_heap.get((x, '*'), ())) | set(final_heap.get((x, DELEM), ()))
+                ex = {export(x) for x in de}
+                ex.discard(None)
+                ex.discard(FRESH)
+                if ex:
+                    s.ret_fields[DELEM] = s.ret_fields.get(DELEM, NO) | frozenset(ex)
                 if l in self.alloc_class:
                     s.alloc_class[FRESH] = self.alloc_class[l]
         comps = [c for c in self.ret_comps_l if c is not None]
